@@ -35,7 +35,10 @@ def first_on_or_after(n, pred):
 
 
 def run(ctx):
+    ctx.exhaustive = False
+    ctx.exhaustive_note = 'complete over every day of the window for every stem/branch of the anchoring days; term days are scenario inputs'
     from rules import shared
+    ctx.include('effect_inventory', shared.effect_inventory)   # no new process-wide mutable state (MIR statics inventory)
     ctx.include('month_records', shared.month_records)   # leap table, solstice anchor, month memo, memo cells (shared, cached per source hash)
     ctx.include('jd_tables', shared.jd_tables)           # civil date <-> day number per (year, month) (shared, cached per source hash)
     I = ctx.interp(fuel=60000000)
